@@ -44,25 +44,25 @@ class Foreign(Exception):
     pass
 
 
-def make_stmt(kind, sid, deps):
+def make_stmt(kind, sid, deps, cond=True):
     common = dict(id=sid, depends_on=deps)
     if kind == "Assign":
         return Assign(assignee="x", assignee_subscript=(), expression=var("y") + 1,
-                      condition=True, **common)
+                      condition=cond, **common)
     if kind == "Nop":
         return Nop(**common)
     if kind == "YieldState":
         return YieldState(time=0, time_id="tid", expression=0, component_id="c",
-                          condition=True, **common)
+                          condition=cond, **common)
     if kind == "AssignFunctionCall":
         return AssignFunctionCall(assignees=("x",), function_id="<func>f", parameters=(),
-                                  condition=True, **common)
+                                  condition=cond, **common)
     if kind == "FailStep":
-        return FailStep(condition=True, **common)
+        return FailStep(condition=cond, **common)
     if kind == "SwitchPhase":
-        return SwitchPhase(next_phase="p", condition=True, **common)
+        return SwitchPhase(next_phase="p", condition=cond, **common)
     if kind == "Raise":
-        return Raise(Foreign, "m", condition=True, **common)
+        return Raise(Foreign, "m", condition=cond, **common)
     raise AssertionError(kind)
 
 
@@ -72,13 +72,11 @@ class Monitor:
     def __init__(self, ctx, ids, deps, kinds, anc, wired):
         self.ctx = ctx
         self.tape = ctx.tape
-        self.ids = ids
-        self.idx = {s: i for i, s in enumerate(ids)}
-        self.deps = deps
-        self.kinds = kinds
-        self.anc = anc
+        self.phases = {}
+        self.literal_false = {}
+        self.add_phase("p", ids, deps, kinds, anc, set())
+        self.use_phase("p")
         self.wired = wired
-        self.n = len(ids)
         self.step_no = -1
         self.history = []
         self.steps_decoded = []
@@ -86,8 +84,19 @@ class Monitor:
         self.p_cut = 0.0
         self.p_false = 0.0
 
+    def add_phase(self, name, ids, deps, kinds, anc, literal_false):
+        self.phases[name] = dict(ids=ids, idx={s: i for i, s in enumerate(ids)}, deps=deps, kinds=kinds,
+                                 anc=anc, n=len(ids), lf=literal_false)
+
+    def use_phase(self, name):
+        ph = self.phases[name]
+        self.phase_name = name
+        self.ids, self.idx, self.deps = ph["ids"], ph["idx"], ph["deps"]
+        self.kinds, self.anc, self.n, self.lf = ph["kinds"], ph["anc"], ph["n"], ph["lf"]
+
     # ---- step life cycle
-    def begin_step(self, roots):
+    def begin_step(self, roots, phase="p"):
+        self.use_phase(phase)
         self.step_no += 1
         self.visited = []
         self.visited_set = set()
@@ -100,12 +109,12 @@ class Monitor:
         self.expected_events = []
         self.received_events = []
         self.cut = None
-        self.cur = {"step": self.step_no, "roots": [self.ids[r] for r in roots], "visits": []}
+        self.cur = {"step": self.step_no, "phase": phase, "roots": [self.ids[r] for r in roots], "visits": []}
         self.steps_decoded.append(self.cur)
         self.ctx.log.add("step", self.step_no, self.cur["roots"])
 
     def viol(self, cls, detail, site=""):
-        raise Violation(cls, "step %d: %s" % (self.step_no, detail), site or self.mode)
+        raise Violation(cls, "step %d (phase %s): %s" % (self.step_no, self.phase_name, detail), site or self.mode)
 
     def end_step_complete(self):
         if self.pending is not None:
@@ -152,7 +161,11 @@ class Monitor:
         self.visited_set.add(i)
         if self.deps[i]:
             pass
-        guard = not self.tape.chance(self.p_false, "guard")
+        if i in self.lf:
+            guard = False          # the statement's condition is the literal False
+            self.ctx.count("probe:literal_false_guard")
+        else:
+            guard = not self.tape.chance(self.p_false, "guard")
         if not guard and any(i in d for d in self.deps):
             self.ctx.count("probe:guard_false_with_dependents")
         self.ctx.log.add("cond", stmt.id, guard)
@@ -184,7 +197,8 @@ class Monitor:
                 return (ev, None if tape.chance(0.5) else [])
             if act == 3:
                 kind = tape.draw(3, "cutkind")
-                exc = [FailStepException(), TransitionEvent("p"), Foreign("injected")][kind]
+                target = sorted(self.phases)[tape.draw(len(self.phases), "switchto")]
+                exc = [FailStepException(), TransitionEvent(target), Foreign("injected")][kind]
                 self.cut = exc
                 self.ctx.count("fault:cutoff_" + ["failstep", "transition", "foreign"][kind])
                 self.cur["visits"][-1].append("cut:" + type(exc).__name__)
@@ -422,15 +436,46 @@ def run_c04(ctx):
 
     chooser = TapeChooser(tape, ctx.log, counter=lambda site: ctx.count(
         "fault:perm_" + site.split(":")[0]), enabled=permute)
-    stmts = [make_stmt(kinds[i], ids[i], [ids[j] for j in deps[i]]) for i in range(n)]
+    with tape.span("literal_false"):
+        lf = set(i for i in range(n) if kinds[i] != "Nop" and tape.chance(0.08, "lf"))
+    stmts = [make_stmt(kinds[i], ids[i], [ids[j] for j in deps[i]], cond=(i not in lf)) for i in range(n)]
     for st in stmts:
         st.depends_on = OrdFS(st.depends_on, chooser, "deps:" + st.id)
     with tape.span("storage"):
         storage = [stmts[i] for i in tape.perm(n, "storage")] if permute else list(stmts)
-    phase = SimPhase("p", "p", storage, chooser)
-    code = DAGCode({"p": phase}, "p")
+    # optional second phase that reuses statement ids of the first with a different graph
+    two = False
+    with tape.span("second_phase"):
+        if tape.chance(0.35, "two_phases"):
+            two = True
+            ids_q0, deps_q, _shape_q = gen_graph(tape, max(2, min(n, 8)))
+            nq = len(ids_q0)
+            reuse = [ids[i] for i in tape.perm(n, "idsq")][:nq]
+            ids_q = [reuse[i] if i < len(reuse) else ids_q0[i] for i in range(nq)]
+            if len(set(ids_q)) != nq:
+                ids_q = ids_q0
+            kinds_q = [KINDS[tape.weighted([4, 2, 1, 1, 0.5, 0.5, 0.5], "kindq")] for _ in range(nq)]
+            stmts_q = [make_stmt(kinds_q[i], ids_q[i], [ids_q[j] for j in deps_q[i]]) for i in range(nq)]
+            for st in stmts_q:
+                st.depends_on = OrdFS(st.depends_on, chooser, "deps:" + st.id)
+            storage_q = [stmts_q[i] for i in tape.perm(nq, "storageq")] if permute else list(stmts_q)
+            next_p = ["p", "q"][tape.draw(2, "next_p")]
+    phase = SimPhase("p", next_p if two else "p", storage, chooser)
+    phases = {"p": phase}
+    if two:
+        phases["q"] = SimPhase("q", "p", storage_q, chooser)
+        ctx.count("probe:two_phases_shared_ids")
+    code = DAGCode(phases, "p")
 
     mon = Monitor(ctx, ids, deps, kinds, anc, wired=(mode != "direct"))
+    mon.literal_false = lf
+    mon.phases["p"]["lf"] = lf
+    mon.use_phase("p")
+    if two:
+        mon.add_phase("q", ids_q, deps_q, kinds_q, closure(deps_q), set())
+    sinks_of = {"p": sinks(deps)}
+    if two:
+        sinks_of["q"] = sinks(deps_q)
     mon.mode = mode
     mon.chooser = chooser
     mon.p_request, mon.p_cut, mon.p_false = p_request, p_cut, p_false
@@ -449,17 +494,21 @@ def run_c04(ctx):
         for step in range(n_steps):
             with tape.span("step"):
                 ec.reset()
+                pname = sorted(phases)[tape.draw(len(phases), "stepphase")]
+                ph_obj = phases[pname]
+                pn = mon.phases[pname]["n"]
+                pids = mon.phases[pname]["ids"]
                 if tape.chance(0.6, "allsinks"):
-                    roots = list(all_sinks)
-                    exec_ids = phase.depends_on
+                    roots = list(sinks_of[pname])
+                    exec_ids = ph_obj.depends_on
                 else:
-                    roots = [i for i in range(n) if tape.chance(0.3, "root")] or [tape.draw(n, "root1")]
-                    exec_ids = OrdFS([ids[r] for r in roots], chooser, "roots")
-                mon.begin_step(roots)
+                    roots = [i for i in range(pn) if tape.chance(0.3, "root")] or [tape.draw(pn, "root1")]
+                    exec_ids = OrdFS([pids[r] for r in roots], chooser, "roots")
+                mon.begin_step(roots, pname)
                 if prev_cut:
                     ctx.count("probe:cutoff_then_step")
-                ec.update_plan(phase, exec_ids)
-                gen = ec(phase, target)
+                ec.update_plan(ph_obj, exec_ids)
+                gen = ec(ph_obj, target)
                 abandon_after = None
                 if tape.chance(0.05, "abandon"):
                     abandon_after = tape.draw(3, "abandon_after")
@@ -487,7 +536,7 @@ def run_c04(ctx):
         if mode == "wired_single":
             for step in range(n_steps):
                 with tape.span("step"):
-                    mon.begin_step(list(all_sinks))
+                    mon.begin_step(list(sinks_of[interp.next_phase]), interp.next_phase)
                     if prev_cut:
                         ctx.count("probe:cutoff_then_step")
                     cut = False
@@ -498,6 +547,8 @@ def run_c04(ctx):
                         if e is not mon.cut:
                             mon.viol("exception-identity", "interpreter raised %r, target raised %r"
                                      % (e, mon.cut))
+                        if isinstance(e, TransitionEvent):
+                            interp.next_phase = e.next_phase
                         cut = True
                     if not cut:
                         mon.end_step_complete()
@@ -505,7 +556,7 @@ def run_c04(ctx):
                     max_visits = max(max_visits, len(mon.visited))
         else:
             # interp.run(): step boundaries are StepCompleted / StepFailed events
-            mon.begin_step(list(all_sinks))
+            mon.begin_step(list(sinks_of[interp.next_phase]), interp.next_phase)
             gen = interp.run(max_steps=n_steps)
             events = 0
             foreign = aborted = False
@@ -527,7 +578,7 @@ def run_c04(ctx):
                             gen.close()
                             aborted = True
                             break
-                        mon.begin_step(list(all_sinks))
+                        mon.begin_step(list(sinks_of[interp.next_phase]), interp.next_phase)
                     else:
                         mon.received_events.append(ev)
             except Foreign as e:
